@@ -31,6 +31,7 @@ EXPLANATION = (
 def run(ctx):
     ctx.rule(value)
     ctx.rule(stencil)
+    ctx.rule(empty_signal)
     ctx.rule(readonly)
     ctx.rule(dither)
 
@@ -321,3 +322,33 @@ def fresh_and_pure_no_return(ctx, R, f):
         if isinstance(n, (ast.Global, ast.Nonlocal)):
             ctx.bad(R, f, n, "apply writes module state", "apply keeps no state")
     ctx.ok(R, f.loc(), "%s writes no instance or module state" % f.short)
+
+
+
+def empty_signal(ctx, R="R-C18-stencil"):
+    """The transforms are defined for every signal length, 0 included: the arrays derived from the signal are only ever sliced.
+    A constant integer index along the sample axis (x[..., 0], x[-1]) raises IndexError on an empty signal."""
+    prog = ctx.prog
+    for name in ("Dither", "Preemphasize"):
+        f = _apply(prog, name)
+        sig = f.params[1]
+        derived = {sig}
+        for _ in range(3):
+            for n in f.body_nodes():
+                if isinstance(n, ast.Assign) and any(isinstance(x, ast.Name) and x.id in derived for x in ast.walk(n.value)):
+                    # arrays of the signal's shape: empty_like / zeros_like / astype / copies / views
+                    if isinstance(n.value, ast.Call) or isinstance(n.value, (ast.Name, ast.Subscript)):
+                        derived.update(t.id for t in n.targets if isinstance(t, ast.Name))
+        hits = []
+        for n in f.body_nodes():
+            if isinstance(n, ast.Subscript) and isinstance(n.value, ast.Name) and n.value.id in derived:
+                sl = n.slice
+                last = sl.elts[-1] if isinstance(sl, ast.Tuple) and sl.elts else sl
+                lead_ok = not isinstance(sl, ast.Tuple) or all(isinstance(e, ast.Constant) and e.value is Ellipsis or isinstance(e, ast.Slice) for e in sl.elts[:-1])
+                if lead_ok and isinstance(last, (ast.Constant, ast.UnaryOp)) and astq.text(last).lstrip("-").isdigit():
+                    hits.append(n)
+        shape_like = [h for h in hits if isinstance(astq.parents(f).get(id(h)), ast.Attribute)]
+        hits = [h for h in hits if h not in shape_like]
+        ctx.check(not hits, R, f, hits[0] if hits else f.node, "%s.apply only slices the arrays derived from the signal (defined for a signal of length 0)" % name,
+                  "%s.apply indexes %s with a constant position along the sample axis: for an empty signal this raises IndexError although the "
+                  "transform of an empty signal is the empty signal" % (name, astq.text(hits[0]) if hits else ""))
